@@ -120,6 +120,8 @@ func runC18(c *core.Ctx) {
 		c.Check(ok, "C18.type-names", key, pf.Pos(), "prints "+got+" / grammar "+want, fmt.Sprintf("%s prints tokens %q but the IDL production built by %s expects %q", typ, got, built[typ][0].Builder.Name(), want))
 	}
 
+	ruleCompositeElementParsers(c, ip, "C18.type-names")
+
 	// ------------------------------------------------------------ lines
 	c.Doc("C18.recursion", "a type reference hands a question on to the type it designates only while marked as being visited, and refuses to resolve while marked (a recursive struct is an error, not a stack overflow)", 4)
 	ruleReferenceRecursionGuard(c, "C18.recursion")
@@ -213,6 +215,7 @@ func runC18(c *core.Ctx) {
 	// ------------------------------------------------------------ registration
 	c.Doc("C18.registration", "RegisterTo of composite types registers every component type; the printer registers what it printed on every successful path", 4)
 	ruleRegistrationOnEveryPath(c, "C18.registration")
+	ruleNamesComparedAsStored(c, "C18.registration")
 	ruleRegisterComponents(c)
 
 	// ------------------------------------------------------------ total
@@ -490,5 +493,80 @@ func ruleExplicitIDsKept(c *core.Ctx) {
 	}
 	if n == 0 {
 		c.Undecided(rule, "meta/idl action list builder", token.NoPos, "no assignment of an action id found")
+	}
+}
+
+// ruleNamesComparedAsStored: the set of declared type names (TypeSet.Names) is
+// searched by comparing the stored names themselves.  A comparison through a
+// normalising function (CleanName, ToLower) takes two different declared names
+// — Target and target — for one: the second is renamed behind the back of the
+// lines already printed, which then refer to a name the IDL never declares.
+func ruleNamesComparedAsStored(c *core.Ctx, rule string) {
+	names := fld(c, "meta/signature", "TypeSet", "Names")
+	if names == nil {
+		c.Undecided(rule, "meta/signature.TypeSet.Names", token.NoPos, "anchor not found")
+		return
+	}
+	n := 0
+	for _, fn := range srcFuncsOfPkg(c, "meta/signature") {
+		if len(fieldAccesses(fn, names)) == 0 {
+			continue
+		}
+		fromNames := func(v ssa.Value) bool {
+			for depth := 0; depth < 4; depth++ {
+				v = core.Canon(v)
+				if isFieldOf(v, names) {
+					return true
+				}
+				switch x := v.(type) {
+				case *ssa.UnOp:
+					if ia, ok := x.X.(*ssa.IndexAddr); ok {
+						v = ia.X
+						continue
+					}
+				case *ssa.Extract:
+					if nx, ok := x.Tuple.(*ssa.Next); ok {
+						if r, ok := nx.Iter.(*ssa.Range); ok {
+							v = r.X
+							continue
+						}
+					}
+				case *ssa.Call:
+					// a function of the repository applied to a stored name
+					if f := x.Call.StaticCallee(); f != nil && inRepo(f) && len(x.Call.Args) == 1 {
+						v = x.Call.Args[0]
+						continue
+					}
+				}
+				return false
+			}
+			return false
+		}
+		k := 0
+		for _, b := range fn.Blocks {
+			for _, in := range b.Instrs {
+				bo, ok := in.(*ssa.BinOp)
+				if !ok || (bo.Op != token.EQL && bo.Op != token.NEQ) || !types.Identical(bo.X.Type().Underlying(), types.Typ[types.String]) {
+					continue
+				}
+				if !fromNames(bo.X) && !fromNames(bo.Y) {
+					continue
+				}
+				n++
+				k++
+				bad := ""
+				for _, o := range []ssa.Value{bo.X, bo.Y} {
+					if cv, isCall := core.Canon(o).(*ssa.Call); isCall {
+						if f := cv.Call.StaticCallee(); f != nil {
+							bad = "a declared type name is compared through " + f.Name() + "(): two different names that it maps to one (Target / target) are taken for a collision, the second declaration is renamed and the lines already printed refer to a name the IDL does not declare"
+						}
+					}
+				}
+				c.Check(bad == "", rule, fmt.Sprintf("names-as-stored@%s#%d", core.FuncKey(fn), k), bo.Pos(), "declared names compared as stored", bad)
+			}
+		}
+	}
+	if n == 0 {
+		c.Undecided(rule, "meta/signature.TypeSet.Names", token.NoPos, "no comparison of a declared name found")
 	}
 }
